@@ -63,12 +63,15 @@ extern "C" int h_matrix_rotation_twice(unsigned which, unsigned d, unsigned d0, 
   gsl_matrix_complex_free(U);
   return rc;
 }
-// which: 0 WeightedRotation(Const,Yd,Const), 1 WeightedRotation(matrix,Yd,matrix) with the matrices built from the same parameters
+// which: 0 WeightedRotation(Const,Yd,Const), 1 WeightedRotation(matrix,Yd,matrix) with the matrices built from the same parameters,
+// 2 / 3: the same two calls with the weight operator being the rotated vector itself (x.WeightedRotation(pV,x,pW); yd is ignored)
 extern "C" int h_weighted(unsigned which, unsigned d, double* a, double* yd, double* thV, double* delV, double* thW, double* delW, double* o){
   try{
     Const pV, pW; fill(pV,d,thV,delV); fill(pW,d,thW,delW);
     SU_vector A(d,a), Y(d,yd), V; V=A;
     if(which==0) V.WeightedRotation(pV,Y,pW);
+    else if(which==2) V.WeightedRotation(pV,V,pW);
+    else if(which==3){ auto MV=pV.GetTransformationMatrix(d); auto MW=pW.GetTransformationMatrix(d); V.WeightedRotation(MV.get(),V,MW.get()); }
     else{ auto MV=pV.GetTransformationMatrix(d); auto MW=pW.GetTransformationMatrix(d); V.WeightedRotation(MV.get(),Y,MW.get()); }
     copy_out(V,o); return 0;
   }catch(...){ return 1; }
